@@ -565,7 +565,7 @@ func runC18(c *ctx) {
 				r2 := r.fork()
 				for k := 0; k < nc; k++ {
 					pi := r2.intn(len(ports))
-					ch := gChain{Port: ports[pi], Kind: []string{"rds", "inline", "rds", "none"}[r.intn(4)]}
+					ch := gChain{Port: ports[pi], Kind: []string{"inline", "inline", "rds", "none"}[r.intn(4)]}
 					ports = append(ports[:pi], ports[pi+1:]...) // distinct chain ports
 					ch.Bucket = []int{-1, 0, 5, 100, 100000}[r.intn(5)]
 					ch.Shape = r2.intn(3)
